@@ -90,8 +90,12 @@ pub use streams::{
 };
 
 mod timer;
+#[cfg(feature = "__verif")]
+mod verif;
 use crate::congestion::Controller;
 use timer::{Timer, TimerTable};
+#[cfg(feature = "__verif")]
+pub use verif::{Probe, SpaceProbe, StreamsProbe};
 
 /// Protocol state and logic for a single QUIC connection
 ///
